@@ -749,6 +749,8 @@ def gen_c12(rnd, n, thorough=False):
             if kind == 'syntax':
                 q = rnd.pick([q.replace('&', ';', 1), q + '&%zz=1', q + '&x=%', '&&' + q + '&', q + '&novalue', q.replace('=', '%3D', 1), q + '&a=b=c', q.replace('file=', 'FILE='), '', q + '&%66ile=zzz'])
             lines.append('clirawview q=%s' % (q or '-'))
+            if rnd.chance(0.5):
+                lines.append('clirawview q=%s' % (q or '-'))          # the same request again: the same answer
             if rnd.chance(0.4):
                 # the raw dump endpoint reads file and retention only (the other parameters are ignored)
                 lines.append('clirawdump q=%s' % (re.sub(r'TS\([^)]*\)', 'x', q) or '-'))
@@ -984,6 +986,16 @@ def gen_c16(rnd, n, thorough=False):
         gl.append("clidiff src=g:*/*.wsp dest=h: from=0 until=0 archive=-1")
         gl.append("cliexit src=g:*/*.wsp dest=h: from=0 until=0 archive=-1")
         cases.append({'id': 'c16-globdiff-%d' % j, 'lines': gl, 'tags': {'layout': 'glob', 'src': 'ok', 'dest': 'glob', 'sub': {'diff': 2}}})
+    # a glob copy over a source that is being written: the window of every matched file ends at ITS OWN clock
+    # (success means every file was copied up to the moment it was handled)
+    l2 = CLI_LAYOUTS[rnd.pick(['two_1s', 'three_1s', 'single'])]
+    gl = []
+    for nm in ('g/y/a.wsp', 'g/y/b.wsp', 'h/y/a.wsp'):
+        gl += fill_ops(rnd, nm, l2, 2, 0x3f000000, density=0.4, inconsistent=False)
+    gl += ["clicopy src=g:y/*.wsp dest=h: from=0 until=0 archive=-1 copynan=0 m=2 x=3f000000 layout=%s live=g/y/b.wsp hold=h/y/a.wsp" % lay_csv(l2)]
+    observe_all(gl, 'h/y/b.wsp', l2, until='@+9', now='@+9')
+    gl.append("clidiff src=g:y/*.wsp dest=h: from=0 until=0 archive=-1")
+    cases.append({'id': 'c16-live', 'lines': gl, 'tags': {'layout': 'live', 'src': 'ok', 'dest': 'glob_live_source', 'sub': {'copy': 1, 'diff': 1}}})
     # every invocation starts at the command line: Parse of each subcommand (Model/Args.v)
     cases += gen_args(rnd, max(n // 4, 10))
     return cases
